@@ -408,7 +408,7 @@ fn families(a: &Args) -> Vec<Family> {
     }
     // ---- round trips over reachable StableGraph states (arbitrary vacancy patterns and free-list orders)
     {
-        let lim = if t { 60_000 } else { 6_000 };
+        let lim = if t { 60_000 } else if a.profile == "verif-nda" { 300 } else { 1_600 };
         let mut states: Vec<ms::St<u32>> = ms::reachable_states::<u32>(true, 3, 2, (4, 3), lim);
         states.extend(ms::reachable_states::<u32>(false, 2, 2, (3, 3), lim / 2));
         let n = states.len() as u64;
@@ -453,7 +453,7 @@ fn families(a: &Args) -> Vec<Family> {
         describe: Box::new(|idx| json!({"u8 limit": 253 + idx % 3})),
     });
     // ---- faults: text-level mutations of JSON seeds
-    let sd = std::rc::Rc::new({ let mut s = seeds(); if !t { s.truncate(48); } s });
+    let sd = std::rc::Rc::new({ let mut s = seeds(); if !t { s.truncate(if a.profile == "verif-nda" { 16 } else { 32 }); } s });
     {
         // index space: (seed, kind 0 = truncation at p | kind 1 = position p x replacement r)
         let lens: Vec<u64> = sd.iter().map(|s| s.len() as u64).collect();
